@@ -61,8 +61,12 @@ func (d *mapTypeFieldTextDecoder) Decode(req *protocol.Request, params param.Par
 	var defaultValue string
 	for _, tagInfo := range d.tagInfos {
 		if tagInfo.Skip || tagInfo.Key == jsonTag || tagInfo.Key == fileNameTag {
-			if tagInfo.Key == jsonTag && !tagInfo.Skip { // `json:"-"`: the body is no source for this field
+			if tagInfo.Key == jsonTag {
 				defaultValue = tagInfo.Default
+				if tagInfo.Skip {
+					// `json:"-"`: the body is no source for this field (its default is still its default)
+					continue
+				}
 				found := checkRequireJSON(req, tagInfo)
 				if found {
 					// a json tag that is not 'required' carries no value unless the key
